@@ -13,6 +13,7 @@ package main
 
 import (
 	"fmt"
+	"go/token"
 	"go/types"
 	"os"
 	"sort"
@@ -796,7 +797,10 @@ func (c *Ctx) recurrentTable(name string) (known bool, bad string, cells int) {
 			continue // attributes refused by Init (an activation name the library does not have): not this table's business
 		}
 		if cell.seqLens {
-			continue // sequence lengths are not modelled: whatever is computed with them is not compared
+			// sequence lengths are not modelled. The library refuses the input today; when it is accepted, nothing
+			// here can tell whether every sample stops at its own length (C06: honoured or refused; C16: a sample
+			// must not depend on the lengths of its batch mates)
+			return true, "UNESTABLISHED: with " + cell.String() + ": the optional sequence_lens input is accepted and computed with; that every sample of the batch is processed up to its own length (later steps masked, its final state taken at its own last step) is not something this table or any other rule can establish", cells
 		}
 		want, shapes := recExpected(name, cell)
 		if cell.nOut > 0 && cell.nOut < len(want) {
@@ -876,12 +880,15 @@ func ruleRecurrentTable(c *Ctx, prop string) {
 		if oi == nil {
 			continue
 		}
+		c.checkSequenceLensRefused(oi, name)
 		key := "R40:recurrent-table:" + name
 		site := c.pos(oi.methods["Apply"].Pos())
 		known, bad, cells := c.recurrentTable(name)
 		switch {
 		case !known:
 			c.note("R40", key, site, "the dataflow table cannot follow this code to one outcome per cell; the structural rules R12 decide")
+		case strings.HasPrefix(bad, "UNESTABLISHED: "):
+			c.undecided("R40", key, site, strings.TrimPrefix(bad, "UNESTABLISHED: "))
 		case bad != "":
 			c.violate("R40", key, site, bad)
 		default:
@@ -914,4 +921,61 @@ func (c *Ctx) registeredCtor(oi *opInfo, name string) *ssa.Function {
 		}
 	}
 	return ctor
+}
+
+// checkSequenceLensRefused (R12:seqlens): the optional sequence_lens input (inputs[4]) is not implemented; the only
+// handling a rule can vouch for is the refusal: Apply returns an error on the edge where inputs[4] is not nil. An
+// implementation of per-sample lengths is outside what the tables model and is reported as not established.
+func (c *Ctx) checkSequenceLensRefused(oi *opInfo, name string) {
+	apply := oi.methods["Apply"]
+	if apply == nil || len(apply.Params) < 2 {
+		return
+	}
+	key := "R12:seqlens:" + name
+	site := c.pos(apply.Pos())
+	refused := false
+	for f := range c.reachFrom([]*ssa.Function{apply}) {
+		if f != apply {
+			continue
+		}
+		for _, b := range f.Blocks {
+			iff, ok := lastIf(b)
+			if !ok {
+				continue
+			}
+			bo, ok := iff.Cond.(*ssa.BinOp)
+			if !ok || (bo.Op != token.NEQ && bo.Op != token.EQL) {
+				continue
+			}
+			var other ssa.Value
+			switch {
+			case isNilConst(bo.Y):
+				other = bo.X
+			case isNilConst(bo.X):
+				other = bo.Y
+			default:
+				continue
+			}
+			if !sameInputLoad(other, apply.Params[1], 4) {
+				continue
+			}
+			// the edge on which inputs[4] is not nil
+			if c.edgeRejects(iff, bo.Op == token.NEQ) {
+				refused = true
+			}
+		}
+	}
+	if refused {
+		c.discharge("R12", key, site, "a sequence_lens input (inputs[4]) is refused with an error")
+	} else {
+		c.undecided("R12", key, site, name+" does not refuse a sequence_lens input (inputs[4] != nil leads to no error return in Apply): whether every sample of the batch is processed up to its own length - later steps masked, the final state taken at its own last step - is outside what the rules and tables can establish")
+	}
+}
+
+func lastIf(b *ssa.BasicBlock) (*ssa.If, bool) {
+	if len(b.Instrs) == 0 {
+		return nil, false
+	}
+	iff, ok := b.Instrs[len(b.Instrs)-1].(*ssa.If)
+	return iff, ok
 }
